@@ -22,7 +22,10 @@ Fail-closed.  From the working tree `repo` (pure AST, nothing is imported):
    shape  key = <key class>(Message(host_key)); [if key is None: raise]; if not
    key.verify_ssh_sig(<self.X>, Message(sig)): <raise or not>; self.host_key = key  and yields which
    attribute is verified (H / K / session_id), whether a failed verify raises, and whether the key
-   is built from the `host_key` argument and the signature from the `sig` argument.
+   is built from the `host_key` argument and the signature from the `sig` argument.  The verify call
+   must be the whole (negated) condition -- a conjunction / disjunction around it is refused.  One
+   extra rejection `expected = self.host_key_type.replace(..); if Message(sig).get_binary() !=
+   b(expected): raise SSHException` before the check is recognised (verify_alg_guard).
 """
 import ast
 import os
@@ -491,11 +494,42 @@ def walk_verify_key(fn):
     raises = False
     sig_from_arg = False
     stores = False
+    alg_guard = False
+    alg_names = {}       # local name -> True when it is <self.host_key_type>.replace(<const>, <const>)
     for st in body[1:]:
+        if isinstance(st, ast.Assign) and len(st.targets) == 1 and isinstance(st.targets[0], ast.Name) \
+                and st.targets[0].id not in (hk, sg, "key", "self"):
+            # expected = self.host_key_type.replace("-cert-v01@openssh.com", "")
+            v = st.value
+            ok = isinstance(v, ast.Call) and isinstance(v.func, ast.Attribute) and v.func.attr == "replace" \
+                and dotted(v.func.value) == "self.host_key_type" and len(v.args) == 2 and not v.keywords \
+                and all(isinstance(a, ast.Constant) and isinstance(a.value, str) for a in v.args)
+            if not ok or over is not None:
+                raise Unrecognised("%s: unrecognised local assignment (line %d)" % (where, st.lineno))
+            alg_names[st.targets[0].id] = True
+            continue
         if isinstance(st, ast.If):
             t = st.test
             if isinstance(t, ast.Compare) and dotted(t.left) == "key" and isinstance(t.ops[0], ast.Is):
                 continue   # if key is None: raise
+            if isinstance(t, ast.Compare) and len(t.ops) == 1 and isinstance(t.ops[0], ast.NotEq) and over is None:
+                # if Message(sig).get_binary() != b(expected): raise SSHException(...)
+                # an extra rejection before the signature check: only ever turns an accept into an abort
+                lhs, rhs = t.left, t.comparators[0]
+                ok = isinstance(lhs, ast.Call) and isinstance(lhs.func, ast.Attribute) \
+                    and lhs.func.attr in ("get_binary", "get_text", "get_string") and not lhs.args \
+                    and is_call(lhs.func.value, "Message") and len(lhs.func.value.args) == 1 \
+                    and isinstance(lhs.func.value.args[0], ast.Name) and lhs.func.value.args[0].id == sg
+                if isinstance(rhs, ast.Call) and dotted(rhs.func) == "b" and len(rhs.args) == 1:
+                    rhs = rhs.args[0]
+                ok = ok and (isinstance(rhs, ast.Name) and rhs.id in alg_names or dotted(rhs) == "self.host_key_type")
+                ok = ok and not st.orelse and len(st.body) == 1 and isinstance(st.body[0], ast.Raise) \
+                    and is_call(st.body[0].exc, "SSHException")
+                if not ok or alg_guard:
+                    raise Unrecognised("%s: unrecognised rejection test before the signature check (line %d)"
+                                       % (where, st.lineno))
+                alg_guard = True
+                continue
             if isinstance(t, ast.UnaryOp) and isinstance(t.op, ast.Not) and is_call(t.operand, "key.verify_ssh_sig"):
                 c = t.operand
                 if over is not None or len(c.args) != 2 or c.keywords or st.orelse:
@@ -521,7 +555,7 @@ def walk_verify_key(fn):
         raise Unrecognised("%s: unrecognised statement (line %d)" % (where, st.lineno))
     if over is None:
         raise Unrecognised(where + ": verify_ssh_sig is never consulted")
-    return over, raises, key_from_arg, sig_from_arg, stores
+    return over, raises, key_from_arg, sig_from_arg, stores, alg_guard
 
 
 def coqbool(b):
@@ -597,13 +631,15 @@ def generate(repo):
     prog = walk_set_K_H(tms["_set_K_H"])
     w("(* Transport._set_K_H, statement by statement *)")
     w("Definition setkh_prog : list setkh_stmt := [%s]." % "; ".join(prog))
-    over, raises, kfa, sfa, stores = walk_verify_key(tms["_verify_key"])
+    over, raises, kfa, sfa, stores, alg_guard = walk_verify_key(tms["_verify_key"])
     w("(* Transport._verify_key: what is verified, whether a failed verify raises, whether key / signature are the arguments *)")
     w("Definition verify_over : vsrc := %s." % over)
     w("Definition verify_raises : bool := %s." % coqbool(raises))
     w("Definition verify_key_from_arg : bool := %s." % coqbool(kfa))
     w("Definition verify_sig_from_arg : bool := %s." % coqbool(sfa))
     w("Definition verify_stores_key : bool := %s." % coqbool(stores))
+    w("(* an extra `if <algorithm named in the signature blob> != <negotiated algorithm>: raise` before the check *)")
+    w("Definition verify_alg_guard : bool := %s." % coqbool(alg_guard))
     w("")
     return {"C06_gen.v": "\n".join(out) + "\n"}
 
